@@ -3,7 +3,7 @@ from common import LEAN_TB
 CHECK = {
     "title": "Resolution is a pure function of its inputs",
     "modules": ["Apko.Proofs.C08"],
-    "suites": [("purity", 150, 3000), ("resolver-pure", 2500, 60000)],
+    "suites": [("purity", 150, 3000), ("resolver-pure", 2500, 60000), ("glue-pure", 350, 8000)],
     "race_suites": ["purity"],
     "fact_prefixes": ["repo.go"],
     "hashes": {
